@@ -37,6 +37,14 @@ type Attacker struct {
 	closed  atomic.Bool
 	served  atomic.Int64
 	serveWG sync.WaitGroup
+
+	// wmu keeps the two frames of a request (RPC id, request body) adjacent on
+	// the connection. The mux delivers frames strictly in order and waits for
+	// each one to be consumed, so an id frame of a not-yet-accepted stream
+	// that slips between another stream's id and body stalls that handler
+	// until its RPC timeout (see the dedicated back-pressure stall scenario).
+	wmu        sync.Mutex
+	Interleave bool // true: do not serialise (used by the stall scenario only)
 }
 
 // DialAttacker opens a TCP connection from localIP to victim, calls hold (the
@@ -165,18 +173,26 @@ func (a *Attacker) Burst(burst uint32, plan []ReqPlan, timeout time.Duration, re
 			defer s.Close()
 			s.SetDeadline(time.Now().Add(timeout))
 			req := requestFor(p.Kind, tag)
-			if err := s.WriteID(req); err != nil {
-				rr.Err = "write id: " + err.Error()
+			if !a.Interleave {
+				a.wmu.Lock()
+			}
+			err = s.WriteID(req)
+			if err == nil && !p.HalfOpen {
+				if err = s.WriteRequest(req); err != nil {
+					err = fmt.Errorf("write request: %w", err)
+				}
+			}
+			if !a.Interleave {
+				a.wmu.Unlock()
+			}
+			if err != nil {
+				rr.Err = "write: " + err.Error()
 				return
 			}
 			if p.HalfOpen {
 				if release != nil {
 					<-release
 				}
-				return
-			}
-			if err := s.WriteRequest(req); err != nil {
-				rr.Err = "write request: " + err.Error()
 				return
 			}
 			if p.Abandon {
@@ -325,4 +341,62 @@ func (ac *Acceptor) Close() {
 		c.Close()
 	}
 	ac.wg.Wait()
+}
+
+// OrderedBurst opens m streams and writes, from one goroutine, first the RPC
+// id of every stream and only then the request bodies - the frame order two
+// or more goroutines of an honest client calling Peer.SendHeaders etc.
+// concurrently can produce, since id and body are separate writes. The answers
+// are then read concurrently.
+func (a *Attacker) OrderedBurst(burst uint32, m int, timeout time.Duration) []ReqResult {
+	res := make([]ReqResult, m)
+	streams := make([]*gateway.Stream, m)
+	reqs := make([]gateway.Object, m)
+	a.wmu.Lock()
+	for i := 0; i < m; i++ {
+		tag := Tag{Peer: a.Idx, Burst: burst, Req: uint32(i)}
+		res[i] = ReqResult{Tag: tag, Kind: KindName(KindSendHeaders)}
+		s, err := a.T.DialStream()
+		if err != nil {
+			res[i].Err = "dial: " + err.Error()
+			continue
+		}
+		s.SetDeadline(time.Now().Add(timeout))
+		reqs[i] = requestFor(KindSendHeaders, tag)
+		if err := s.WriteID(reqs[i]); err != nil {
+			res[i].Err = "write id: " + err.Error()
+			s.Close()
+			continue
+		}
+		streams[i] = s
+	}
+	for i, s := range streams {
+		if s == nil {
+			continue
+		}
+		if err := s.WriteRequest(reqs[i]); err != nil {
+			res[i].Err = "write request: " + err.Error()
+			s.Close()
+			streams[i] = nil
+		}
+	}
+	a.wmu.Unlock()
+	var wg sync.WaitGroup
+	for i, s := range streams {
+		if s == nil {
+			continue
+		}
+		wg.Add(1)
+		go func(i int, s *gateway.Stream) {
+			defer wg.Done()
+			defer s.Close()
+			if err := s.ReadResponse(reqs[i]); err != nil {
+				res[i].Err = "read response: " + err.Error()
+				return
+			}
+			res[i].OK = true
+		}(i, s)
+	}
+	wg.Wait()
+	return res
 }
